@@ -281,3 +281,90 @@ pub fn c04_ids_open_sequence() {
     kani::cover!(true, "end");
     std::mem::forget(send);
 }
+
+// ---------------------------------------------------------------------------
+// C02.settings: SETTINGS_INITIAL_WINDOW_SIZE change applied to an existing stream
+// ---------------------------------------------------------------------------
+pub(crate) fn stub_send_reset_unreachable<B>(_s: &mut Send, _r: Reason, _i: Initiator, _b: &mut Buffer<Frame<B>>, _p: &mut store::Ptr, _c: &mut Counts, _t: &mut Option<Waker>) {
+    panic!("UNREACHABLE-STUB Send::send_reset")
+}
+
+/// One stream (ids through the IndexMap shim) in any state shape lo..=hi, any ledger
+/// values satisfying J=,S2, any old/new initial window.  Reference (RFC 9113 §6.9.2):
+/// every stream that may still send DATA - send half not closed, or data still
+/// buffered - has its window moved by exactly new - old (it may go negative); capacity
+/// above the shrunk window returns to the connection; nothing else changes.
+fn settings_window_change(decrease: bool, lo: u8, hi: u8) {
+    let c = cfg();
+    let mut send = Send::new(&c);
+    let mut counts = Counts::new(peer::Dyn::Server, &c);
+    let mut store = Store::new();
+    let mut buffer: Buffer<F> = buf_h::with_capacity(4);
+    let id = StreamId::from(ID);
+    let mut stream = Stream::new(id, 0, 0);
+    stream.state = st_h::any_state_in(id, lo, hi);
+    stream.ref_count = 1;
+    let key = store.insert(id, stream).key();
+    let mut w = SWorld { send, counts, store, buffer, key, task: None };
+    let (cwv, ca, others, sw, a, _req) = sym_ledgers(&mut w);
+    let buffered: usize = kani::any();
+    kani::assume(buffered <= (1usize << 40));
+    {
+        let mut p = w.store.resolve(w.key);
+        p.buffered_send_data = buffered;
+        kani::assume(p.requested_send_capacity as u64 >= if buffered as u64 > u32::MAX as u64 { u32::MAX as u64 } else { buffered as u64 });
+    }
+    let old: u32 = kani::any();
+    let new: u32 = kani::any();
+    kani::assume(old <= 0x7fff_ffff && new <= 0x7fff_ffff);
+    if decrease {
+        kani::assume(new < old);
+    } else {
+        kani::assume(new > old);
+        // the increase must not overflow the stream window (that is the FLOW_CONTROL_ERROR
+        // path, which resets the stream: Send::send_reset is an unreachability stub here)
+        kani::assume(sw as i64 + (new as i64 - old as i64) <= 0x7fff_ffff);
+    }
+    w.send.init_window_sz = old;
+    let (send_half, _) = {
+        let p = w.store.resolve(w.key);
+        st_h::halves(&p.state)
+    };
+    let may_send = !(send_half == st_h::H_CLOSED && buffered == 0);
+    let mut s = frame::Settings::default();
+    s.set_initial_window_size(Some(new));
+    let r = w.send.apply_remote_settings(&s, &mut w.buffer, &mut w.store, &mut w.counts, &mut w.task);
+    let p = w.store.resolve(w.key);
+    let (sw2, a2) = fc_h::get(&p.send_flow);
+    let (cw2, ca2) = prio_h::conn_flow(&w.send.prioritize);
+    match &r {
+        Ok(()) => {
+            assert!(w.send.init_window_sz() == new, "new initial window not recorded for future streams");
+            if may_send {
+                assert!(sw2 as i64 == sw as i64 + new as i64 - old as i64,
+                    "C02.settings: window of a stream that can still send DATA not moved by exactly new - old");
+            } else {
+                assert!(sw2 == sw, "window of a send-closed, drained stream touched");
+            }
+            // capacity: never more than the (shrunk) window allows; excess returned
+            assert!(a2 as i64 <= if sw2 > 0 { sw2 as i64 } else { 0 }, "S2: stream keeps capacity above its shrunk window");
+            assert!(a2 <= a || !decrease, "a decrease must not add capacity");
+            assert!(cw2 == cwv, "connection window touched by SETTINGS");
+            assert!(ca2 >= 0 && ca2 as i64 + a2 as i64 + others == cw2 as i64, "J=: capacity leaked or invented while applying SETTINGS");
+            let _ = ca;
+        }
+        Err(e) => {
+            assert!(matches!(e, Error::GoAway(_, Reason::FLOW_CONTROL_ERROR, Initiator::Library)), "must be a connection FLOW_CONTROL_ERROR");
+            assert!(decrease && may_send && (sw as i64 - (old as i64 - new as i64)) < i32::MIN as i64, "representable window change refused");
+        }
+    }
+    kani::cover!(r.is_ok() && may_send && sw2 < 0, "negative_window");
+    kani::cover!(r.is_ok() && a2 < a, "capacity_reclaimed");
+    kani::cover!(r.is_ok() && !may_send, "skipped");
+    kani::cover!(true, "end");
+    std::mem::forget(r);
+    std::mem::forget(w);
+}
+pub fn c02_settings_decrease_live() { settings_window_change(true, 0, 5) }
+pub fn c02_settings_decrease_closed() { settings_window_change(true, 6, 11) }
+pub fn c02_settings_increase_live() { settings_window_change(false, 0, 5) }
